@@ -9,6 +9,13 @@ namespace Statime
 /-- the four per-type sequence counters of a port -/
 def Port.seqs (p : Port) : Nat × Nat × Nat × Nat := (p.annSeq, p.syncSeq, p.delaySeq, p.pdelaySeq)
 
+/-- what the BMCA run never touches: the sequence counters, the peer delay state, the mean delay -/
+def Port.inert (p : Port) : (Nat × Nat × Nat × Nat) × PeerSt × Option Int := (p.seqs, p.peer, p.meanDelay)
+
+theorem inert_seqs {p p' : Port} (h : p'.inert = p.inert) : p'.seqs = p.seqs := congrArg (fun x => x.1) h
+theorem inert_peer {p p' : Port} (h : p'.inert = p.inert) : p'.peer = p.peer := congrArg (fun x => x.2.1) h
+theorem inert_meanDelay {p p' : Port} (h : p'.inert = p.inert) : p'.meanDelay = p.meanDelay := congrArg (fun x => x.2.2) h
+
 /-- message type of a frame in an action -/
 def Out.sendType : Out → Option MsgType
   | .sendEvent _ b _ => MsgType.ofNibble (byteAt b 0 % 16)
@@ -408,13 +415,9 @@ theorem handleDelayReq_roles (p p' : Port) (h : Header) (ts : Nat) (outs : List 
       intro e
       unfold msgDelayResp at hf
       simp only [bind, Except.bind] at hf
-      cases h1 : liftOv (tivAdd h.correction (timeSubnano ts)) with
-      | error e' => rw [h1] at hf; cases hf
-      | ok c =>
-        rw [h1] at hf
-        cases h2 : liftOv (timeToWire ts) with
-        | error e' => rw [h2] at hf; cases hf
-        | ok w => rw [h2] at hf; simp only [Except.ok.injEq] at hf; rw [← hf] at e; cases e
+      cases h2 : liftOv (timeToWire ts) with
+      | error e' => rw [h2] at hf; cases hf
+      | ok w => rw [h2] at hf; simp only [Except.ok.injEq] at hf; rw [← hf] at e; cases e
   · simp only [Except.ok.injEq, Prod.mk.injEq] at hr
     rw [← hr.1, ← hr.2]; exact ⟨guarded_nil _ _, keeps_refl _⟩
 
@@ -549,17 +552,14 @@ theorem bmcaRegister_own (l : FML) (acc : Option (List Nat)) (a : Ann) : (bmcaRe
 
 theorem storePath_spec (s1 s2 : InstState) (pt : Option Tlv) (h : storePath s1 pt = .ok s2) :
     (pt = none ∧ s2 = s1) ∨
-    ∃ t, pt = some t ∧ s2 = { s1 with pathTrace := pathOf t.value } ∧ (pathOf t.value).length ≤ PATH_TRACE_CAP := by
+    ∃ t, pt = some t ∧ s2 = { s1 with pathTrace := (pathOf t.value).take PATH_TRACE_CAP } ∧ s2.pathTrace.length ≤ PATH_TRACE_CAP := by
   unfold storePath at h
   cases pt with
   | none => simp only [Except.ok.injEq] at h; exact Or.inl ⟨rfl, h.symm⟩
   | some t =>
     simp only at h
-    split at h
-    · cases h
-    · rename_i hl
-      simp only [Except.ok.injEq] at h
-      exact Or.inr ⟨t, rfl, h.symm, Nat.le_of_not_lt hl⟩
+    simp only [Except.ok.injEq] at h
+    exact Or.inr ⟨t, rfl, h.symm, by rw [← h]; exact List.length_take_le _ _⟩
 
 /-- the three ways `handle_announce` treats the data sets -/
 theorem announceUpdate_cases (p : Port) (s s1 : InstState) (m : Msg) (a : Ann) (loop : Bool)
